@@ -46,6 +46,31 @@ CHECKS = {
          "Each generated record (hostile strings in every text field and MDC, long unescaped runs across buffer sizes, optional fields absent, named/unnamed threads, short-write sinks) is encoded and the single line is parsed back with an independent parser and compared field by field, including omission of absent optional fields and the MDC map.",
          "Trusted: the harness JSON parser, chrono RFC 3339 parsing for the time bracket. 'Control character' = U+0000..U+001F.",
          "DESIGN.md §4 C12"),
+ "C04": ("exploration",
+         "runtime monitor: self-describing record frames + client-boundary event log + stream oracle; file re-read by an independent reader after every append; concurrent stress with race-amplifier hook (Miri seeds in thorough)",
+         "Single-threaded histories read the file back after every single append (visibility at return, exact content, both open modes, reopen). Concurrent runs log every append with invocation/return stamps from one atomic counter and check the final file with the stream oracle (whole frames, none lost or duplicated, per-thread and real-time order) and each thread looks up its own record right after append returned. Schedules are sampled (stress + amplifier hook), not enumerated.",
+         "Trusted: frames.rs (frame format, parser, oracle). A record larger than the 1 KiB buffer may legitimately be written in several write(2) calls, so the file is only judged at return points.",
+         "DESIGN.md §4 C04"),
+ "C05": ("exploration",
+         "runtime monitor: exact directory model after every operation (single-threaded) driven by trigger decisions recorded at the Trigger boundary + stream oracle over archives and active file (concurrent)",
+         "Histories mix appends sized around limit/buffer, empty records and restarts over size / on-start-up / time (driven clock) / scripted pre- and post-processing triggers and delete / fixed-window rollers (plain, gz, zst), built through the builder API or from a config document; after every operation the whole directory must equal the model. Concurrent runs are judged with the order-free stream oracle (only whole oldest files may be gone).",
+         "Trusted: window model, frames.rs. Histories are short (<= a few hundred records); background rotation only in the thorough tier.",
+         "DESIGN.md §4 C05"),
+ "C06": ("exploration",
+         "runtime monitor: recording wrapper at the Trigger boundary comparing LogFile::len_estimate() with fs::metadata().len() at every policy consultation, plus exact directory model",
+         "At every consultation the size shown to the policy must equal the true on-disk size and the real SizeTrigger's answer must equal (size > N); after every append the active file holds at most N bytes or is gone. Limits, record sizes and pre-existing sizes are chosen on the boundaries (N-1, N, N+1; 1023/1024/1025; 0).",
+         "Trusted: the wrapper sees exactly the LogFile the policy sees. Histories <= 60 operations.",
+         "DESIGN.md §4 C06"),
+ "C07": ("exploration",
+         "runtime monitor: recursive directory snapshots (bytes, inode, mtime) before/after every Roll::roll call compared with a window model; strict decompression",
+         "Roll::roll is called directly with generated bases, counts, patterns (index in name / directory / repeated / $ENV / gz / zst), initial directory states (gaps, archives beyond the window, look-alike bystanders) and contents; after every roll the managed names must hold exactly the window model and everything else must be byte-, inode- and mtime-identical.",
+         "Trusted: window model; flate2 MultiGzDecoder / zstd decode_all as strict decoders. A foreign file created and removed within one roll() is not observable.",
+         "DESIGN.md §4 C07"),
+ "C17": ("exploration",
+         "runtime monitor: per-append rotation count from the exact directory model compared with the statement; barrier-released concurrent first appends with amplifier hook",
+         "For every (min_size, start-up size, open mode) combination around the boundary the monitor observes during which append a rotation happens and what the newest archive holds; concurrent first appends from 2-16 threads are judged after join.",
+         "Trusted: directory model. Thread schedules are sampled; Miri seeds in thorough.",
+         "DESIGN.md §4 C17"),
 }
 
 NOT_YET = {}
